@@ -58,8 +58,60 @@ def bytes_of(prog, an, sy, t, depth=0):
             return [("const", e0[1])] * n
         return None
     if x[0] in ("var", "mut"):
-        return local_bytes(prog, an, sy, x[1], depth + 1)
+        r = local_bytes(prog, an, sy, x[1], depth + 1)
+        if r is None and x[0] == "mut":
+            r = vec_bytes(prog, an, sy, x[1], x[2], depth + 1)
+        return r
     return None
+
+
+def vec_bytes(prog, an, sy, l, init, depth=0):
+    """bytes of a local `Vec<u8>` that starts empty (`Vec::new()` / `with_capacity(n)`) and is filled by a straight-line
+    sequence of `extend_from_slice(src)` / `push(v)` / `extend(iter)`"""
+    body = an.body
+    i0 = strip(init)
+    if not (i0[0] == "call" and short(i0[1]) in ("Vec::<T>::new", "Vec::<T>::with_capacity")):
+        return None
+    reach = body.reachable()
+    if any(body.blocks[b]["t"]["k"] == "switch" for b in reach if not body.blocks[b].get("cleanup")) or body.back_edges():
+        return None
+    cur = []
+    for b in body.rpo():
+        if b not in reach or body.blocks[b].get("cleanup"):
+            continue
+        t = body.blocks[b]["t"]
+        if t["k"] != "call" or not t["args"]:
+            continue
+        an.terms._pos = (b, "t")
+        args = [an.terms.operand(a) for a in t["args"]]
+        recv = args[0]
+        is_mut_ref = False
+        while recv[0] in ("ref", "deref"):
+            is_mut_ref = True
+            recv = recv[1]
+        touches = [k for k, a_ in enumerate(args) if any(y[0] == "mut" and y[1] == l for y in _walk(a_))]
+        if not touches:
+            continue
+        s = short(cname(t))
+        if touches != [0] or not (recv[0] == "mut" and recv[1] == l):
+            if s in ("crc32c::crc32c", "Deref::deref", "Vec::<T, A>::as_slice", "Index::index", "Vec::<T, A>::len", "AsRef::as_ref"):
+                continue
+            return None
+        if s in ("Deref::deref", "Vec::<T, A>::as_slice", "Index::index", "Vec::<T, A>::len", "AsRef::as_ref", "crc32c::crc32c"):
+            continue
+        if s == "Vec::<T, A>::extend_from_slice" and len(args) == 2:
+            src = bytes_of(prog, an, sy, args[1], depth + 1)
+        elif s == "Vec::<T, A>::push" and len(args) == 2:
+            o = strip(args[1])
+            src = [("const", o[1])] if o[0] == "const" and isinstance(o[1], int) else [(sy.arg_name(args[1]), 0)]
+        elif s in ("Extend::extend", "Vec::<T, A>::extend") and len(args) == 2:
+            src = bytes_of(prog, an, sy, args[1], depth + 1)
+        else:
+            return None
+        if src is None:
+            return None
+        cur += src
+    return cur
 
 
 def local_bytes(prog, an, sy, l, depth=0):
